@@ -670,8 +670,30 @@ class Sym:
                         del p.store[k]
 
     # -- driving ---------------------------------------------------------------------------------
+    def loop_info(self):
+        """for every real loop: header blocks and the bare locals assigned inside it"""
+        if getattr(self, '_loops', None) is None:
+            body = self.body
+            pm = body.pred_map()
+            heads = {}
+            for comp in real_loops(body):
+                assigned = set()
+                for b in comp:
+                    for st in body.blocks[b]['stmts']:
+                        if st['k'] == 'assign' and not st['place']['p']:
+                            assigned.add(st['place']['l'])
+                    t = body.blocks[b]['term']
+                    if t['k'] == 'call' and not t['dest']['p']:
+                        assigned.add(t['dest']['l'])
+                for b in comp:
+                    if any(q not in comp for q in pm[b]):
+                        heads.setdefault(b, set()).update(assigned)
+            self._loops = heads
+        return self._loops
+
     def run(self, start=0, env=None):
         body = self.body
+        loops = self.loop_info()
         p0 = Path()
         if env:
             p0.env.update(env)
@@ -695,6 +717,11 @@ class Sym:
                 self.paths.append(p)
                 continue
             p.blocks.append(b)
+            if b in loops:
+                # entering a loop: variables carried around the loop are unknown afterwards
+                for l in loops[b]:
+                    if l in p.env:
+                        p.env[l] = ('loopvar', l, body.local_name(l), b)
             blk = body.blocks[b]
             for s in blk['stmts']:
                 if s['k'] == 'assign':
